@@ -45,6 +45,9 @@ fn main() {
     if id == "merge-evidence" {
         std::process::exit(merge_evidence(&args[2..]));
     }
+    if id == "c12worker" {
+        std::process::exit(checks::c12::worker_main(&args[2..]));
+    }
     if id == "memworker" {
         std::process::exit(memcheck::worker_main(&args[2..]));
     }
